@@ -223,6 +223,12 @@ func seamSummary(ps []faultPoint) string {
 // runFaultedChecked adds the C10 end-of-run oracle (locks free, handles closed,
 // no goroutine left blocked) to runFaulted.
 func runFaultedChecked(t *testing.T, c *Case, st *Stats, relax Relax, faults []Fault, snaps *[]map[string]int) (*Violation, *Devices) {
+	return runFaultedPost(t, c, st, relax, faults, snaps, nil)
+}
+
+// runFaultedPost: post (if set) judges the state the faulted history left behind; it
+// runs after the probes, inside the simulation, with fault injection switched off.
+func runFaultedPost(t *testing.T, c *Case, st *Stats, relax Relax, faults []Fault, snaps *[]map[string]int, post func(stk *Stack, w *World) *Violation) (*Violation, *Devices) {
 	var dev *Devices
 	var held, leaked []string
 	finished := false
@@ -250,7 +256,15 @@ func runFaultedChecked(t *testing.T, c *Case, st *Stats, relax Relax, faults []F
 		w.Dev.ResetCounts()
 		w.Dev.SetPlan(faults)
 		reopens := 0
+		tapeLen := func() int64 {
+			if fi, err := os.Stat(w.Drive); err == nil {
+				return fi.Size()
+			}
+			return 0
+		}
 		for _, op := range c.Ops {
+			before := tapeLen()
+			failed := false
 			switch op.K {
 			case "reopen":
 				// Initialize is a call like any other: it returns and leaves the drive free, also
@@ -263,19 +277,28 @@ func runFaultedChecked(t *testing.T, c *Case, st *Stats, relax Relax, faults []F
 					reopens++
 					oo.Index = filepath.Join(w.Dir, fmt.Sprintf("reopen%d.sqlite", reopens))
 				}
-				nst, _ := w.Open(oo)
+				nst, oerr := w.Open(oo)
 				if nst == nil {
 					hv = &Violation{Prop: c.Prop, Oracle: "harness", Detail: "reopen: no stack"}
 					return
 				}
+				if oerr != nil {
+					w.Dev.InitFailed = true
+					failed = true
+				}
 				stk = nst
 				ex = NewExec(stk.FS, s)
 			case "archive":
-				faultyArchive(stk, op)
+				failed = faultyArchive(stk, op) != nil
 			case "restore":
-				faultyRestore(stk, op)
+				failed = faultyRestore(stk, op) != nil
 			default:
-				ex.Do(op)
+				r := ex.Do(op)
+				failed = r.Class != "ok" && r.Class != "nohandle"
+			}
+			if failed && tapeLen() > before {
+				// the call failed after part of its record(s) had reached the tape
+				w.Dev.PartialAppend = true
 			}
 			if snaps != nil {
 				*snaps = append(*snaps, w.Dev.Snapshot())
@@ -290,6 +313,11 @@ func runFaultedChecked(t *testing.T, c *Case, st *Stats, relax Relax, faults []F
 		}
 		if b, err := os.ReadFile(w.Drive); err == nil {
 			st.Mark("distinct_final_tapes", sumOf(b))
+		}
+		if post != nil {
+			w.Dev.SetPlan(nil)
+			w.Dev.Enabled = false
+			hv = post(stk, w)
 		}
 		finished = true
 	})
